@@ -54,6 +54,7 @@ def run (st : St) (args : List String) : St × String :=
       (st', s!"{resp} execs={st'.execs}")
   | "c04.cancelcross" :: _ => (st, "ok")   -- a call's outcome is its own (own_answer): what another caller of the client does with its call does not reach it
   | "c04.staleremove" :: _ => (st, "ok")   -- keys of calls in flight are distinct, each reply goes to the call with its key (own_answer, at_most_once)
+  | "sv.spawnfull" :: _ => (st, "ok")   -- every call one answer, its own (own_answer, at_most_once); that the service does not wedge: Props/C16Mailbox not_stuck
   | "sv.saturate" :: _ => (st, "ok")   -- a post has no response (post_is_quiet), a call exactly one answer, refused or served (own_answer, at_most_once)
   | "sv.bigreply" :: _ => (st, "ok")   -- every call returns exactly one outcome, the method ran at most once (at_most_once); an answer that cannot be delivered is an error for its caller
   | "sv.closepending" :: _ => (st, "ok")  -- every call returns exactly one outcome; one that is not answered returns the error of the loss (Props/C11Faults)
